@@ -94,4 +94,560 @@ theorem rejected_forever_not_accepted (env : Env) (root : String) (j : Json)
   intro ⟨v, hv⟩
   exact h (runFuel j) ⟨v, unmarshal_accept_stable .json env root j v hv (runFuel j) (Nat.le_refl _)⟩
 
+
+/-! ### what a generated method accepts, spelled out (no fuel, no monad): the acceptance condition of the emitted
+    code is the CONJUNCTION of its parts, nothing else -/
+
+/-- the test one after-validator performs on the decoded shadow value -/
+def afterPasses (plain : GoVal) : Validator → Bool
+  | .nullType field depth => checkNull depth (fieldOf plain field)
+  | .array field depth mn mx => checkArray depth (fieldOf plain field) mn mx
+  | .string field mn mx p nl => checkString (fieldOf plain field) mn mx p nl
+  | .numeric field nl c => checkNumeric (fieldOf plain field) nl c
+  | _ => true
+
+/-- validator lists the statement speaks about: no default-filling step (it changes the value: C09) and no float
+    multipleOf outside the dyadic rationals (convention F) -/
+def Checkable : Validator → Bool
+  | .dflt .. => false
+  | .numeric _ _ c => !nonDyadicFloat c
+  | _ => true
+
+/-- **the after-validators accept exactly when every single check passes**, and then hand the value on unchanged -/
+theorem runAfter_ok_iff (w : Wire) (env : Env) (ty : GoTy) (raw : Option (List (String × Json))) (plain : GoVal) :
+    ∀ (vs : List Validator) (f : Nat), vs.length < f → (∀ v ∈ vs, Checkable v = true) →
+      ((∃ p, runAfter w env f ty vs raw plain = .ok p) ↔ ∀ v ∈ vs, afterPasses plain v = true) ∧
+      (∀ p, runAfter w env f ty vs raw plain = .ok p → p = plain) := by
+  intro vs
+  induction vs with
+  | nil =>
+    intro f hf _
+    cases f with
+    | zero => omega
+    | succ f => simp [runAfter]
+  | cons v rest ih =>
+    intro f hf hc
+    cases f with
+    | zero => simp at hf
+    | succ f =>
+      have hrest := ih f (by simp at hf; omega) (fun v' hv' => hc v' (List.mem_cons_of_mem _ hv'))
+      have hv := hc v (List.mem_cons_self ..)
+      cases v with
+      | required k =>
+        have e : afterPasses plain (.required k) = true := rfl
+        simpa only [runAfter, List.forall_mem_cons, e, true_and] using hrest
+      | anyOf n =>
+        have e : afterPasses plain (.anyOf n) = true := rfl
+        simpa only [runAfter, List.forall_mem_cons, e, true_and] using hrest
+      | dflt a b c => simp [Checkable] at hv
+      | nullType field depth =>
+        have e : afterPasses plain (.nullType field depth) = checkNull depth (fieldOf plain field) := rfl
+        simp only [runAfter, List.forall_mem_cons, e]
+        cases hx : checkNull depth (fieldOf plain field) with
+        | true => simpa only [↓reduceIte, true_and] using hrest
+        | false => simp
+      | array field depth mn mx =>
+        have e : afterPasses plain (.array field depth mn mx) = checkArray depth (fieldOf plain field) mn mx := rfl
+        simp only [runAfter, List.forall_mem_cons, e]
+        cases hx : checkArray depth (fieldOf plain field) mn mx with
+        | true => simpa only [↓reduceIte, true_and] using hrest
+        | false => simp
+      | string field mn mx p nl =>
+        have e : afterPasses plain (.string field mn mx p nl) = checkString (fieldOf plain field) mn mx p nl := rfl
+        simp only [runAfter, List.forall_mem_cons, e]
+        cases hx : checkString (fieldOf plain field) mn mx p nl with
+        | true => simpa only [↓reduceIte, true_and] using hrest
+        | false => simp
+      | numeric field nl c =>
+        have e : afterPasses plain (.numeric field nl c) = checkNumeric (fieldOf plain field) nl c := rfl
+        simp only [Checkable, Bool.not_eq_true'] at hv
+        simp only [runAfter, List.forall_mem_cons, e, hv, Bool.false_eq_true, ↓reduceIte]
+        cases hx : checkNumeric (fieldOf plain field) nl c with
+        | true => simpa only [↓reduceIte, true_and] using hrest
+        | false => simp
+
+def NoAnyOf : Validator → Bool | .anyOf _ => false | _ => true
+
+/-- **the before-validators (without anyOf) accept exactly when every required key is present in the raw map** -/
+theorem runBefore_ok_iff (w : Wire) (env : Env) (dn : String) (kvs : List (String × Json)) (j : Json) :
+    ∀ (vs : List Validator) (f : Nat), vs.length < f → (∀ v ∈ vs, NoAnyOf v = true) →
+      (runBefore w env f dn vs (some kvs) j = .ok () ↔ ∀ k, Validator.required k ∈ vs → ahas k kvs = true) := by
+  intro vs
+  induction vs with
+  | nil =>
+    intro f hf _
+    cases f with
+    | zero => omega
+    | succ f => simp [runBefore]
+  | cons v rest ih =>
+    intro f hf hc
+    cases f with
+    | zero => simp at hf
+    | succ f =>
+      have hrest := ih f (by simp at hf; omega) (fun v' hv' => hc v' (List.mem_cons_of_mem _ hv'))
+      have hv := hc v (List.mem_cons_self ..)
+      cases v with
+      | anyOf n => simp [NoAnyOf] at hv
+      | required k =>
+        simp only [runBefore, List.mem_cons]
+        cases hk : ahas k kvs with
+        | true =>
+          simp only [↓reduceIte, hrest]
+          constructor
+          · intro h k' hk'
+            rcases hk' with e | e
+            · injection e with e; subst e; exact hk
+            · exact h k' e
+          · intro h k' hk'; exact h k' (Or.inr hk')
+        | false =>
+          simp only [Bool.false_eq_true, ↓reduceIte]
+          constructor
+          · intro h; cases h
+          · intro h; have := h k (Or.inl rfl); rw [hk] at this; cases this
+      | nullType a b => simpa [runBefore] using hrest
+      | dflt a b c => simpa [runBefore] using hrest
+      | array a b c d => simpa [runBefore] using hrest
+      | string a b c d e => simpa [runBefore] using hrest
+      | numeric a b c => simpa [runBefore] using hrest
+
+/-- without a raw map (no validator needs it) the before-validators without anyOf accept -/
+theorem runBefore_noraw (w : Wire) (env : Env) (dn : String) (j : Json) :
+    ∀ (vs : List Validator) (f : Nat), vs.length < f → (∀ v ∈ vs, NoAnyOf v = true) →
+      runBefore w env f dn vs none j = .ok () := by
+  intro vs
+  induction vs with
+  | nil => intro f hf _; cases f with | zero => omega | succ f => simp [runBefore]
+  | cons v rest ih =>
+    intro f hf hc
+    cases f with
+    | zero => simp at hf
+    | succ f =>
+      have hrest := ih f (by simp at hf; omega) (fun v' hv' => hc v' (List.mem_cons_of_mem _ hv'))
+      have hv := hc v (List.mem_cons_self ..)
+      cases v <;> first | (simp [NoAnyOf] at hv; done) | simpa [runBefore] using hrest
+
+/-- **C02–C08 at one struct level: the emitted method of a struct type accepts an object exactly when**
+    every required key is present, the shadow decode succeeds, and every emitted check passes on the decoded
+    value — and then returns that value.  (Validator lists without anyOf and default steps, struct without the
+    AdditionalProperties field; those have their own statements.)  Together with the exactness theorems of
+    C05 (`float_bounds_exact`, `int_bounds_exact`), C06 (`string_check_exact_ascii`), C07 (`depth1_exact`) this
+    says: an accepted object satisfies every stated constraint of the struct's own members, and an object that
+    decodes and satisfies them is accepted. -/
+theorem struct_method_ok_iff (w : Wire) (env : Env) (d : Decl) (vs : List Validator) (m : Bool) (fs : List Field)
+    (kvs : List (String × Json)) (f : Nat)
+    (hbody : d.body = .plain vs m) (hty : d.ty = .strct fs)
+    (hnoaddl : fs.find? (fun fl => fl.name = "AdditionalProperties") = none)
+    (hf : vs.length < f) (h1 : ∀ v ∈ vs, NoAnyOf v = true) (h2 : ∀ v ∈ vs, Checkable v = true) (v : GoVal) :
+    runMethod w env (f + 1) d (.obj kvs) = .ok v ↔
+      (∀ k, Validator.required k ∈ vs → ahas k kvs = true) ∧
+      decode w env f d.ty (.obj kvs) = .ok v ∧ ∀ x ∈ vs, afterPasses v x = true := by
+  have hreq_raw : (∃ k, Validator.required k ∈ vs) → vs.any (fun v => v.before || v.requiresRawAfter) = true := by
+    rintro ⟨k, hk⟩
+    rw [List.any_eq_true]
+    exact ⟨_, hk, rfl⟩
+  simp only [runMethod, hbody, hty, hnoaddl]
+  by_cases hneed : vs.any (fun v => v.before || v.requiresRawAfter) = true
+  · simp only [hneed, ↓reduceIte, bind, Except.bind]
+    cases hb : runBefore w env f d.name vs (some kvs) (.obj kvs) with
+    | error e =>
+      have hnot : ¬ (∀ k, Validator.required k ∈ vs → ahas k kvs = true) := fun h => by
+        have := (runBefore_ok_iff w env d.name kvs (.obj kvs) vs f hf h1).mpr h
+        rw [hb] at this; cases this
+      simp only [hb]
+      constructor
+      · intro h; cases h
+      · intro h; exact absurd h.1 hnot
+    | ok u =>
+      have hall := (runBefore_ok_iff w env d.name kvs (.obj kvs) vs f hf h1).mp (by rw [hb])
+      simp only [hb]
+      cases hd : decode w env f (.strct fs) (.obj kvs) with
+      | error e => simp
+      | ok plain =>
+        simp only
+        obtain ⟨hiff, hsame⟩ := runAfter_ok_iff w env (.strct fs) (some kvs) plain vs f hf h2
+        cases ha : runAfter w env f (.strct fs) vs (some kvs) plain with
+        | error e =>
+          simp only
+          constructor
+          · intro h; cases h
+          · rintro ⟨_, hv, hp⟩
+            injection hv with hv; subst hv
+            have := hiff.mpr hp
+            obtain ⟨p, hp'⟩ := this; rw [ha] at hp'; cases hp'
+        | ok p =>
+          have hpe := hsame p ha
+          subst hpe
+          simp only [pure, Except.pure]
+          constructor
+          · intro h; injection h with h; subst h
+            exact ⟨hall, rfl, hiff.mp ⟨_, ha⟩⟩
+          · rintro ⟨_, hv, _⟩; injection hv with hv; subst hv; rfl
+  · have hneed' : vs.any (fun v => v.before || v.requiresRawAfter) = false := by simpa using hneed
+    have hnoreq : ∀ k, Validator.required k ∈ vs → ahas k kvs = true := by
+      intro k hk; have := hreq_raw ⟨k, hk⟩; rw [hneed'] at this; cases this
+    simp only [hneed', Bool.false_eq_true, ↓reduceIte, bind, Except.bind, runBefore_noraw w env d.name (.obj kvs) vs f hf h1]
+    cases hd : decode w env f (.strct fs) (.obj kvs) with
+    | error e => simp
+    | ok plain =>
+      simp only
+      obtain ⟨hiff, hsame⟩ := runAfter_ok_iff w env (.strct fs) none plain vs f hf h2
+      cases ha : runAfter w env f (.strct fs) vs none plain with
+      | error e =>
+        simp only
+        constructor
+        · intro h; cases h
+        · rintro ⟨_, hv, hp⟩
+          injection hv with hv; subst hv
+          obtain ⟨p, hp'⟩ := hiff.mpr hp; rw [ha] at hp'; cases hp'
+      | ok p =>
+        have hpe := hsame p ha
+        subst hpe
+        simp only [pure, Except.pure]
+        constructor
+        · intro h; injection h with h; subst h
+          exact ⟨hnoreq, rfl, hiff.mp ⟨_, ha⟩⟩
+        · rintro ⟨_, hv, _⟩; injection hv with hv; subst hv; rfl
+
+
+/-- corollary: whatever an accepted object decodes to passes every emitted check of the struct (so, by the
+    exactness theorems of C05–C07, satisfies the stated bound / length / pattern / item-count of that member) -/
+theorem accepted_passes_every_check (w : Wire) (env : Env) (d : Decl) (vs : List Validator) (m : Bool) (fs : List Field)
+    (kvs : List (String × Json)) (f : Nat)
+    (hbody : d.body = .plain vs m) (hty : d.ty = .strct fs)
+    (hnoaddl : fs.find? (fun fl => fl.name = "AdditionalProperties") = none)
+    (hf : vs.length < f) (h1 : ∀ v ∈ vs, NoAnyOf v = true) (h2 : ∀ v ∈ vs, Checkable v = true) (v : GoVal)
+    (hacc : runMethod w env (f + 1) d (.obj kvs) = .ok v) :
+    (∀ k, Validator.required k ∈ vs → ahas k kvs = true) ∧
+    (∀ field nl c, Validator.numeric field nl c ∈ vs → checkNumeric (fieldOf v field) nl c = true) ∧
+    (∀ field mn mx p nl, Validator.string field mn mx p nl ∈ vs → checkString (fieldOf v field) mn mx p nl = true) ∧
+    (∀ field depth mn mx, Validator.array field depth mn mx ∈ vs → checkArray depth (fieldOf v field) mn mx = true) := by
+  obtain ⟨hr, _, hp⟩ := (struct_method_ok_iff w env d vs m fs kvs f hbody hty hnoaddl hf h1 h2 v).mp hacc
+  exact ⟨hr, fun field nl c h => hp _ h, fun field mn mx p nl h => hp _ h, fun field depth mn mx h => hp _ h⟩
+
+/-- the hypotheses are satisfiable by an ordinary generated declaration -/
+example :
+    let fs : List Field := [{ name := "Name", jsonName := "name", ty := .string, tags := "", jsonKey := "name", yamlKey := "name", omitEmpty := false }]
+    let vs : List Validator := [.required "name", .string "Name" 3 8 "" false]
+    fs.find? (fun fl => fl.name = "AdditionalProperties") = none ∧ (∀ v ∈ vs, NoAnyOf v = true) ∧ (∀ v ∈ vs, Checkable v = true) := by
+  simp [NoAnyOf, Checkable]
+
+
+/-! ### acceptance is compositional: a struct accepts an object iff every entry that binds to a field is accepted by
+    that field's type; a slice accepts an array iff every element is accepted (fuel-free statements, by monotonicity) -/
+
+/-- accepted with SOME fuel (by `decode_ok_mono` then with every larger one, with the same value) -/
+def Acc (w : Wire) (env : Env) (ty : GoTy) (j : Json) : Prop := ∃ f v, decode w env f ty j = .ok v
+
+/-- the field a document key binds to under the wire's rule (G7 / Y6) -/
+def bindW (w : Wire) (fs : List Field) (k : String) : Option Field :=
+  match w with
+  | .json => bindKey fs k
+  | .yaml => fs.find? (fun fl => fl.yamlKey = k)
+
+theorem elems_of_all (w : Wire) (env : Env) (t : GoTy) (F : Nat) :
+    ∀ xs : List Json, (∀ x ∈ xs, ∃ v, decode w env F t x = .ok v) →
+      ∃ vs, decodeElems w env (F + xs.length + 1) t xs = .ok vs := by
+  intro xs
+  induction xs with
+  | nil => intro _; exact ⟨[], by simp [decodeElems]⟩
+  | cons x rest ih =>
+    intro h
+    obtain ⟨v, hv⟩ := h x (List.mem_cons_self ..)
+    obtain ⟨vs, hvs⟩ := ih (fun y hy => h y (List.mem_cons_of_mem _ hy))
+    refine ⟨v :: vs, ?_⟩
+    have hv' := Proofs.decode_ok_mono w env t x v F (F + rest.length + 1) (by omega) hv
+    have e : F + (x :: rest).length + 1 = (F + rest.length + 1) + 1 := by simp; omega
+    rw [e]
+    simp only [decodeElems, hv', hvs, bind, Except.bind, pure, Except.pure]
+
+theorem all_of_elems (w : Wire) (env : Env) (t : GoTy) :
+    ∀ (xs : List Json) (f : Nat) (vs : List GoVal), decodeElems w env f t xs = .ok vs → ∀ x ∈ xs, Acc w env t x := by
+  intro xs
+  induction xs with
+  | nil => intro _ _ _ x hx; cases hx
+  | cons y rest ih =>
+    intro f vs h x hx
+    cases f with
+    | zero => simp [decodeElems] at h
+    | succ f =>
+      simp only [decodeElems, bind, Except.bind] at h
+      cases hd : decode w env f t y with
+      | error e => rw [hd] at h; cases h
+      | ok v =>
+        rw [hd] at h
+        simp only at h
+        cases hr : decodeElems w env f t rest with
+        | error e => rw [hr] at h; cases h
+        | ok vs' =>
+          rcases List.mem_cons.mp hx with e | e
+          · subst e; exact ⟨f, v, hd⟩
+          · exact ih f vs' hr x e
+
+/-- a common fuel for finitely many accepted values -/
+theorem common_fuel (w : Wire) (env : Env) (t : GoTy) :
+    ∀ xs : List Json, (∀ x ∈ xs, Acc w env t x) → ∃ F, ∀ x ∈ xs, ∃ v, decode w env F t x = .ok v := by
+  intro xs
+  induction xs with
+  | nil => intro _; exact ⟨0, fun x hx => by cases hx⟩
+  | cons x rest ih =>
+    intro h
+    obtain ⟨F, hF⟩ := ih (fun y hy => h y (List.mem_cons_of_mem _ hy))
+    obtain ⟨f, v, hv⟩ := h x (List.mem_cons_self ..)
+    refine ⟨max F f, ?_⟩
+    intro y hy
+    rcases List.mem_cons.mp hy with e | e
+    · subst e; exact ⟨v, Proofs.decode_ok_mono w env t _ v f _ (Nat.le_max_right ..) hv⟩
+    · obtain ⟨v', hv'⟩ := hF y e
+      exact ⟨v', Proofs.decode_ok_mono w env t y v' F _ (Nat.le_max_left ..) hv'⟩
+
+/-- **a slice accepts a JSON array iff its element type accepts every element** (element types other than named
+    types and `uint8`, whose slices are byte strings: K22) -/
+theorem acc_slice_iff (env : Env) (t : GoTy) (xs : List Json)
+    (hn : ∀ n, t ≠ .named n) (hb : t ≠ .int .u8) :
+    Acc .json env (.slice t) (.arr xs) ↔ ∀ x ∈ xs, Acc .json env t x := by
+  have hdec : ∀ f, decode .json env (f + 1) (.slice t) (.arr xs) = (decodeElems .json env f t xs).map .slice := by
+    intro f
+    cases t <;> first
+      | (exfalso; exact hn _ rfl)
+      | (rename_i k; cases k <;> first | (exfalso; exact hb rfl) | simp [decode])
+      | simp [decode]
+  constructor
+  · rintro ⟨f, v, h⟩
+    cases f with
+    | zero => simp [decode] at h
+    | succ f =>
+      rw [hdec] at h
+      cases hr : decodeElems .json env f t xs with
+      | error e => rw [hr] at h; cases h
+      | ok vs => exact all_of_elems .json env t xs f vs hr
+  · intro h
+    obtain ⟨F, hF⟩ := common_fuel .json env t xs h
+    obtain ⟨vs, hvs⟩ := elems_of_all .json env t F xs hF
+    exact ⟨F + xs.length + 1 + 1, .slice vs, by rw [hdec, hvs]; rfl⟩
+
+theorem struct_of_all (w : Wire) (env : Env) (fs : List Field) (F : Nat) :
+    ∀ (kvs : List (String × Json)) (acc : List (String × GoVal)),
+      (∀ p ∈ kvs, ∀ fld, bindW w fs p.1 = some fld → ∃ v, decode w env F fld.ty p.2 = .ok v) →
+      ∃ r, decodeStruct w env (F + kvs.length + 1) fs kvs acc = .ok r := by
+  intro kvs
+  induction kvs with
+  | nil => intro acc _; exact ⟨acc, by simp [decodeStruct]⟩
+  | cons p rest ih =>
+    obtain ⟨k, x⟩ := p
+    intro acc h
+    have e : F + ((k, x) :: rest).length + 1 = (F + rest.length + 1) + 1 := by simp; omega
+    rw [e]
+    have hrest := fun acc' => ih acc' (fun q hq => h q (List.mem_cons_of_mem _ hq))
+    cases hbnd : bindW w fs k with
+    | none =>
+      obtain ⟨r, hr⟩ := hrest acc
+      refine ⟨r, ?_⟩
+      cases w <;> simp only [bindW] at hbnd <;> simp only [decodeStruct, hbnd, hr]
+    | some fld =>
+      obtain ⟨v, hv⟩ := h (k, x) (List.mem_cons_self ..) fld hbnd
+      have hv' := Proofs.decode_ok_mono w env fld.ty x v F (F + rest.length + 1) (by omega) hv
+      obtain ⟨r, hr⟩ := hrest (acc.map fun (q : String × GoVal) => if q.1 = fld.name then (q.1, v) else q)
+      refine ⟨r, ?_⟩
+      cases w <;> simp only [bindW] at hbnd <;> simp only [decodeStruct, hbnd, hv', hr, bind, Except.bind]
+
+theorem all_of_struct (w : Wire) (env : Env) (fs : List Field) :
+    ∀ (kvs : List (String × Json)) (f : Nat) (acc r : List (String × GoVal)),
+      decodeStruct w env f fs kvs acc = .ok r →
+      ∀ p ∈ kvs, ∀ fld, bindW w fs p.1 = some fld → Acc w env fld.ty p.2 := by
+  intro kvs
+  induction kvs with
+  | nil => intro _ _ _ _ p hp; cases hp
+  | cons q rest ih =>
+    obtain ⟨k, x⟩ := q
+    intro f acc r h p hp fld hfld
+    cases f with
+    | zero => simp [decodeStruct] at h
+    | succ f =>
+      cases hbnd : bindW w fs k with
+      | none =>
+        have h' : decodeStruct w env f fs rest acc = .ok r := by
+          cases w <;> simp only [bindW] at hbnd <;> simpa only [decodeStruct, hbnd] using h
+        rcases List.mem_cons.mp hp with e | e
+        · subst e; rw [hbnd] at hfld; cases hfld
+        · exact ih f acc r h' p e fld hfld
+      | some fld' =>
+        cases hd : decode w env f fld'.ty x with
+        | error er =>
+          exfalso
+          cases w <;> simp only [bindW] at hbnd <;> simp [decodeStruct, hbnd, hd, bind, Except.bind] at h
+        | ok v =>
+          have h' : decodeStruct w env f fs rest (acc.map fun (q : String × GoVal) => if q.1 = fld'.name then (q.1, v) else q) = .ok r := by
+            cases w <;> simp only [bindW] at hbnd <;> simpa only [decodeStruct, hbnd, hd, bind, Except.bind] using h
+          rcases List.mem_cons.mp hp with e | e
+          · subst e; rw [hbnd] at hfld; injection hfld with hfld; subst hfld; exact ⟨f, v, hd⟩
+          · exact ih f _ r h' p e fld hfld
+
+/-- a common fuel for the finitely many entries of an object -/
+theorem common_fuel_struct (w : Wire) (env : Env) (fs : List Field) :
+    ∀ kvs : List (String × Json), (∀ p ∈ kvs, ∀ fld, bindW w fs p.1 = some fld → Acc w env fld.ty p.2) →
+      ∃ F, ∀ p ∈ kvs, ∀ fld, bindW w fs p.1 = some fld → ∃ v, decode w env F fld.ty p.2 = .ok v := by
+  intro kvs
+  induction kvs with
+  | nil => intro _; exact ⟨0, fun p hp => by cases hp⟩
+  | cons q rest ih =>
+    intro h
+    obtain ⟨F, hF⟩ := ih (fun p hp => h p (List.mem_cons_of_mem _ hp))
+    cases hb : bindW w fs q.1 with
+    | none =>
+      refine ⟨F, ?_⟩
+      intro p hp fld hfld
+      rcases List.mem_cons.mp hp with e | e
+      · subst e; rw [hb] at hfld; cases hfld
+      · exact hF p e fld hfld
+    | some fq =>
+      obtain ⟨f, v, hv⟩ := h q (List.mem_cons_self ..) fq hb
+      refine ⟨max F f, ?_⟩
+      intro p hp fld hfld
+      rcases List.mem_cons.mp hp with e | e
+      · subst e; rw [hb] at hfld; injection hfld with hfld; subst hfld
+        exact ⟨v, Proofs.decode_ok_mono w env _ _ v f _ (Nat.le_max_right ..) hv⟩
+      · obtain ⟨v', hv'⟩ := hF p e fld hfld
+        exact ⟨v', Proofs.decode_ok_mono w env _ _ v' F _ (Nat.le_max_left ..) hv'⟩
+
+/-- **a struct accepts an object iff every entry whose key binds to a field is accepted by that field's type** —
+    unknown keys are ignored, nothing else can make the shadow decode fail (both wires) -/
+theorem acc_struct_iff (w : Wire) (env : Env) (fs : List Field) (kvs : List (String × Json)) :
+    Acc w env (.strct fs) (.obj kvs) ↔ ∀ p ∈ kvs, ∀ fld, bindW w fs p.1 = some fld → Acc w env fld.ty p.2 := by
+  have hdec : ∀ f, decode w env (f + 1) (.strct fs) (.obj kvs) =
+      (decodeStruct w env f fs kvs (zeroOf.zeroFields env 32 fs)).map .strct := by
+    intro f; cases w <;> simp [decode]
+  constructor
+  · rintro ⟨f, v, h⟩
+    cases f with
+    | zero => simp [decode] at h
+    | succ f =>
+      rw [hdec] at h
+      cases hr : decodeStruct w env f fs kvs (zeroOf.zeroFields env 32 fs) with
+      | error e => rw [hr] at h; cases h
+      | ok r => exact all_of_struct w env fs kvs f _ r hr
+  · intro h
+    obtain ⟨F, hF⟩ := common_fuel_struct w env fs kvs h
+    obtain ⟨r, hr⟩ := struct_of_all w env fs F kvs (zeroOf.zeroFields env 32 fs) hF
+    exact ⟨F + kvs.length + 1 + 1, .strct r, by rw [hdec, hr]; rfl⟩
+
+/-- **a pointer accepts null, and otherwise what its element type accepts** (JSON wire) -/
+theorem acc_ptr_iff (env : Env) (t : GoTy) (j : Json) :
+    Acc .json env (.ptr t) j ↔ j = .null ∨ Acc .json env t j := by
+  constructor
+  · rintro ⟨f, v, h⟩
+    cases f with
+    | zero => simp [decode] at h
+    | succ f =>
+      by_cases hj : j = .null
+      · exact Or.inl hj
+      · right
+        have : decode .json env (f + 1) (.ptr t) j = (decode .json env f t j).map .ptrTo := by
+          cases j <;> first | (exfalso; exact hj rfl) | simp [decode]
+        rw [this] at h
+        cases hd : decode .json env f t j with
+        | error e => rw [hd] at h; cases h
+        | ok v' => exact ⟨f, v', hd⟩
+  · rintro (h | ⟨f, v, h⟩)
+    · subst h; exact ⟨1, .nil, by simp [decode]⟩
+    · by_cases hj : j = .null
+      · subst hj; exact ⟨1, .nil, by simp [decode]⟩
+      · refine ⟨f + 1, .ptrTo v, ?_⟩
+        have : decode .json env (f + 1) (.ptr t) j = (decode .json env f t j).map .ptrTo := by
+          cases j <;> first | (exfalso; exact hj rfl) | simp [decode]
+        rw [this, h]; rfl
+
+/-- the leaves (JSON wire): a string field accepts null (a no-op) and strings, nothing else; likewise the others -/
+theorem acc_string_iff (env : Env) (j : Json) : Acc .json env .string j ↔ j = .null ∨ ∃ s, j = .str s := by
+  constructor
+  · rintro ⟨f, v, h⟩
+    cases f with
+    | zero => simp [decode] at h
+    | succ f => cases j <;> simp [decode] at h ⊢
+  · rintro (h | ⟨s, h⟩) <;> subst h
+    · exact ⟨1, zeroOf env 32 .string, by simp [decode]⟩
+    · exact ⟨1, .str s, by simp [decode]⟩
+
+theorem acc_bool_iff (env : Env) (j : Json) : Acc .json env .bool j ↔ j = .null ∨ ∃ b, j = .bool b := by
+  constructor
+  · rintro ⟨f, v, h⟩
+    cases f with
+    | zero => simp [decode] at h
+    | succ f => cases j <;> simp [decode] at h ⊢
+  · rintro (h | ⟨s, h⟩) <;> subst h
+    · exact ⟨1, zeroOf env 32 .bool, by simp [decode]⟩
+    · exact ⟨1, .bool s, by simp [decode]⟩
+
+theorem acc_float_iff (env : Env) (j : Json) : Acc .json env .float64 j ↔ j = .null ∨ ∃ q, j = .num q := by
+  constructor
+  · rintro ⟨f, v, h⟩
+    cases f with
+    | zero => simp [decode] at h
+    | succ f => cases j <;> simp [decode] at h ⊢
+  · rintro (h | ⟨s, h⟩) <;> subst h
+    · exact ⟨1, zeroOf env 32 .float64, by simp [decode]⟩
+    · exact ⟨1, .float s, by simp [decode]⟩
+
+/-- an integer field accepts null and exactly the numbers that are integers of its range (G2) -/
+theorem acc_int_iff (env : Env) (k : IntKind) (j : Json) :
+    Acc .json env (.int k) j ↔ j = .null ∨ ∃ q : Rat, j = .num q ∧ q.den = 1 ∧ intInRange k q.num = true := by
+  constructor
+  · rintro ⟨f, v, h⟩
+    cases f with
+    | zero => simp [decode] at h
+    | succ f =>
+      cases j with
+      | num q =>
+        right
+        refine ⟨q, rfl, ?_⟩
+        simp only [decode] at h
+        by_cases hd : q.den = 1
+        · simp only [hd, ne_eq, not_true_eq_false, ↓reduceIte] at h
+          by_cases hr : intInRange k q.num = true
+          · exact ⟨hd, hr⟩
+          · simp [hr] at h
+        · simp [hd] at h
+      | null => exact Or.inl rfl
+      | bool _ => simp [decode] at h
+      | str _ => simp [decode] at h
+      | arr _ => simp [decode] at h
+      | obj _ => simp [decode] at h
+  · rintro (h | ⟨q, h, hd, hr⟩) <;> subst h
+    · exact ⟨1, zeroOf env 32 (.int k), by simp [decode]⟩
+    · exact ⟨1, .int q.num, by simp [decode, hd, hr]⟩
+
+/-- **a named type with a generated method accepts exactly what the method accepts; one without accepts what its
+    underlying type accepts** (JSON wire) -/
+theorem acc_named_iff (env : Env) (n : String) (d : Decl) (j : Json) (hres : env.resolve 8 n = some d) :
+    Acc .json env (.named n) j ↔
+      if d.hasMethod then ∃ f v, runMethod .json env f d j = .ok v
+      else d.ty.isFmt = false ∧ Acc .json env d.ty j := by
+  have hdec : ∀ f, decode .json env (f + 1) (.named n) j =
+      (if d.hasMethod then runMethod .json env f d j
+       else if d.ty.isFmt then .error (.unmodelled "named-format-type") else decode .json env f d.ty j) := by
+    intro f; simp [decode, hres]
+  by_cases hm : d.hasMethod = true
+  · simp only [hm, ↓reduceIte]
+    constructor
+    · rintro ⟨f, v, h⟩
+      cases f with
+      | zero => simp [decode] at h
+      | succ f => rw [hdec] at h; simp only [hm, ↓reduceIte] at h; exact ⟨f, v, h⟩
+    · rintro ⟨f, v, h⟩
+      exact ⟨f + 1, v, by rw [hdec]; simp only [hm, ↓reduceIte]; exact h⟩
+  · have hm' : d.hasMethod = false := by simpa using hm
+    simp only [hm', Bool.false_eq_true, ↓reduceIte]
+    constructor
+    · rintro ⟨f, v, h⟩
+      cases f with
+      | zero => simp [decode] at h
+      | succ f =>
+        rw [hdec] at h
+        simp only [hm', Bool.false_eq_true, ↓reduceIte] at h
+        cases hf : d.ty.isFmt with
+        | true => simp [hf] at h
+        | false => simp only [hf, Bool.false_eq_true, ↓reduceIte] at h; exact ⟨rfl, f, v, h⟩
+    · rintro ⟨hf, f, v, h⟩
+      exact ⟨f + 1, v, by rw [hdec]; simp only [hm', hf, Bool.false_eq_true, ↓reduceIte]; exact h⟩
+
+
 end GJS.Props.C02
